@@ -67,6 +67,7 @@ class Kernel(object):
         self.faults = []          # (k, pid, status): before kernel call #k of the next step
         self.armed = []
         self.log = []
+        self.reasons = []         # reason texts of the error replies of the current step (not part of the compared trace)
 
     # -- bookkeeping
     def out(self, line):
@@ -402,6 +403,8 @@ class FakeStream(object):
         if self.closed:
             raise IOError("stream is closed")
         resp = json.loads(data)
+        if resp.get("status") == "error" and not self.k.blocked:
+            self.k.reasons.append(str(resp.get("reason")))
         cid = self._cid.decode() if isinstance(self._cid, bytes) else str(self._cid)
         self.k.out("o rep %s %s %s %s %s" % (cid, encj(resp.get("id")),
                                            resp.get("status"), resp.get("errno", "-") if resp.get("status") == "error" else "-",
@@ -714,6 +717,7 @@ class Sim(object):
                 f = self.arb.start(cb=self._watch_done)
                 if f.done() and isinstance(f.exception(), ConflictError):
                     k.out("o conflict")
+                    k.reasons.append(str(f.exception()))
                 else:
                     self._watch(f)
             elif kind == "req":
@@ -752,8 +756,9 @@ class Sim(object):
                 try:
                     f = self.arb.manage_watchers()
                     self._watch(f)
-                except ConflictError:
+                except ConflictError as e:
                     k.out("o conflict")
+                    k.reasons.append(str(e))
             elif kind == "wake":
                 if self.sleepers:
                     self.sleepers.sort(key=lambda s: (s[0], s[1]))
@@ -860,9 +865,10 @@ class Sim(object):
         try:
             for op in self.sc["ops"]:
                 self.k.log = []
+                self.k.reasons = []
                 self.apply(op)
                 steps.append({"op": op, "lines": list(self.k.log), "snap": self.snapshot() if not self.blocked else "s blocked",
-                              "slept": self.k.slept})
+                              "slept": self.k.slept, "reasons": list(self.k.reasons)})
                 if self.blocked:
                     break
         finally:
